@@ -53,3 +53,14 @@ package server
 //@ loop 2
 //@   invariant len(vals) == len(origKeys) && i % 2 == 0 && 2 * len(origKeys) == i && fresh(origKeys) && fresh(vals) && origKeys.arr != vals.arr
 //@   invariant forall j int :: 0 <= j && j < len(origKeys) ==> sameSlice(origKeys[j], origArgs[2*j]) && sameSlice(vals[j], origArgs[2*j+1])
+
+// ---- receiving a source cluster's raft log (C19): an entry is proposed for replay only when it is beyond the recorded
+// synced position of its source cluster (term not older, index strictly larger): a re-sent or older entry is skipped
+// at the door (partial contract: only this call-site assertion; the second filter is in applyEntry, node package) ----
+//@ property C19
+//@ noeffect (*github.com/youzan/ZanRedisDB/metric.WriteStats).UpdateLatencyStats (*github.com/youzan/ZanRedisDB/common.LevelLogger).Warningf (*github.com/youzan/ZanRedisDB/syncerpb.RaftLogData).String
+//@ func (s *Server) ApplyRaftReqs(ctx context.Context, reqs *syncerpb.RaftReqs) (*syncerpb.RpcErr, error)
+//@   opt only=ASSERT
+//@   opt autoloops
+//@   callassert ProposeRawAsyncFromSyncer r.Term >= term && r.Index > index
+//@   modifies *
